@@ -758,7 +758,10 @@ impl LunarDay {
     let a_month: isize = self.get_month();
     let b_month: isize = target.get_month();
     if a_month != b_month {
-      return a_month.abs() < b_month.abs();
+      if a_month.abs() != b_month.abs() {
+        return a_month.abs() < b_month.abs();
+      }
+      return a_month > b_month;
     }
     self.day < target.get_day()
   }
@@ -772,7 +775,10 @@ impl LunarDay {
     let a_month: isize = self.get_month();
     let b_month: isize = target.get_month();
     if a_month != b_month {
-      return a_month.abs() >= b_month.abs();
+      if a_month.abs() != b_month.abs() {
+        return a_month.abs() > b_month.abs();
+      }
+      return a_month < b_month;
     }
     self.day > target.get_day()
   }
